@@ -268,8 +268,14 @@ def main_check(prop, tier):
     mod = importlib.import_module(modname)
     hosts = getattr(mod, "HOSTS", ["3.12"])
     groups = []
-    for h in hosts:
-        groups.extend(run_suite_on_host(modname, tier, h))
+    if len(hosts) > 1:
+        from concurrent.futures import ThreadPoolExecutor
+        with ThreadPoolExecutor(max_workers=len(hosts)) as tp:
+            for res in tp.map(lambda h: run_suite_on_host(modname, tier, h), hosts):
+                groups.extend(res)
+    else:
+        for h in hosts:
+            groups.extend(run_suite_on_host(modname, tier, h))
 
     known = load_known(prop)
     items = []
